@@ -614,6 +614,20 @@ def dispatch (accs : List Acc) (k : Kernel) (tys : List Nat) (dynamic : Bool) : 
   | .ok none => .ok none
   | .ok (some a) => .ok (some (if a.streamer && !dynamic then a.name ++ "_stream" else a.name))
 
+/-! ### dispatch with the repair fixes/FD15-dispatch-operand-types.diff (NOT applied to /repo: it changes the output of
+the upstream test dispatch_kernels.mlir, whose first input dispatches a mistyped qmac) -/
+
+/-- the loop over `supported_kernels` with the whole type list compared: an entry matches iff kind and types agree -/
+def matchSupportedFixed (k : Kernel) (tys : List Nat) (l : List Supported) : Bool :=
+  l.any fun sk => sk.kind == k && sk.types == tys
+
+def findAccFixed (k : Kernel) (tys : List Nat) : List Acc → Option Acc
+  | [] => none
+  | a :: rest => if matchSupportedFixed k tys a.supported then some a else findAccFixed k tys rest
+
+def dispatchFixed (accs : List Acc) (k : Kernel) (tys : List Nat) (dynamic : Bool) : Option String :=
+  (findAccFixed k tys accs).map fun a => if a.streamer && !dynamic then a.name ++ "_stream" else a.name
+
 /-! ## `SupportedKernel.is_same_kernel` (accelerators/dispatching.py) -/
 
 /-- `isinstance(kernel_op, self.kernel_type) and list(self.operand_types) == [*operand_types, *result_types]`:
